@@ -194,6 +194,47 @@ def handleQuery (C : Crypto) (padSize addrLen : Nat) (mb : Member) (r : Request)
       { sent := [], registered := true, reports := st.out.take 1,
         stop := if st.stop = some .panicRecover then .panicRecover else .none }
 
+/-! ### from the chain event to the pipeline (`onchainLoop`, dosnode/dos_chain_handler.go) -/
+
+/-- the three events that start a query pipeline (onchain/eventMsg.go); numbers are the `*big.Int`
+fields; for `LogUrl` the pair (DataSource, Selector) is represented by what fetching and parsing
+gives this node (external). -/
+inductive Event where
+  | updateRandom (lastRandomness dispatchedGroupId : Nat)
+  | requestUserRandom (requestId lastSystemRandomness userSeed dispatchedGroupId : Nat)
+  | url (queryId : Nat) (parsed : Option Bytes) (randomness dispatchedGroupId : Nat)
+
+def Event.gid : Event → Nat
+  | .updateRandom _ g => g
+  | .requestUserRandom _ _ _ g => g
+  | .url _ _ _ g => g
+
+/-- the arguments `onchainLoop` passes to `handleQuery`:
+`LogUpdateRandom`      → (requestID, lastRand, useSeed, pType) = (LastRandomness, LastRandomness, nil, TrafficSystemRandom);
+`LogRequestUserRandom` → (RequestId, LastSystemRandomness, UserSeed, TrafficUserRandom);
+`LogUrl`               → (QueryId, Randomness, nil, TrafficUserQuery) with url/selector = DataSource/Selector. -/
+def requestOf : Event → Request
+  | .updateRandom last _ => { kind := .sys, rid := last, last := last, seed := 0, parsed := none }
+  | .requestUserRandom q last seed _ => { kind := .user, rid := q, last := last, seed := seed, parsed := none }
+  | .url q parsed rand _ => { kind := .url, rid := q, last := rand, seed := 0, parsed := parsed }
+
+/-- the node's group table (`d.dkg`, keyed by the hex text of the group id, i.e. by the number):
+member list, own signing function, and the group's threshold-BLS context -/
+structure GroupEntry where
+  ids : List Bytes
+  signOwn : Bytes → Bytes
+  C : Crypto
+
+/-- one event at one node: `isMember(groupID)` (a share for the DISPATCHED group is held), then
+`groupInfo(groupID)` of that same group, then `handleQuery`.  `none` = the event is ignored. -/
+def onEvent (padSize addrLen : Nat) (me : Bytes) (groups : Nat → Option GroupEntry) (ev : Event)
+    (fromCollector : List (Option Msg)) : Option NodeOut :=
+  match groups ev.gid with
+  | none => none
+  | some g =>
+    if g.ids.length = 0 then none   -- groupInfo: "No Group info"
+    else some (handleQuery g.C padSize addrLen { ids := g.ids, me := me, signOwn := g.signOwn } (requestOf ev) fromCollector)
+
 /-- the node with its collector: the messages that reach the stage are the collector's
 deliveries to instance `h` (`msgOf` maps the harness tag of a share to the message). -/
 def nodeRun (C : Crypto) (padSize addrLen : Nat) (mb : Member) (r : Request)
@@ -384,8 +425,36 @@ def runCase (padSize addrLen : Nat) (kind : Kind) (n : Nat) (ids : List Bytes) (
     "sub=" ++ subTag ++ " " ++ String.intercalate " " parts
   | _, _ => "panic submitter"
 
+/-- `ev` case line: a chain event delivered to n honest nodes that all hold the group `gid` -/
+def evLine (padSize addrLen : Nat) (ws : List String) : String :=
+  match ws with
+  | [kind, n, _seed, ids, gid, evgid, last, rid, useed, _doc, _sel, parsed, _dup] =>
+    match parseKind kind, n.toNat?, hexList ids, gid.toNat?, evgid.toNat?, last.toNat?, rid.toNat?, useed.toNat? with
+    | some kind, some n, some ids, some gid, some evgid, some last, some rid, some useed =>
+      let parsedV : Option Bytes := if parsed == "err" then none else ofHex parsed
+      let ev : Event := match kind with
+        | .sys => .updateRandom last evgid
+        | .user => .requestUserRandom rid last useed evgid
+        | .url => .url rid parsedV last evgid
+      let req := requestOf ev
+      -- every node's table holds the group under `gid` only (plus a decoy group under another id)
+      let member := ev.gid = gid
+      let sched : List Item := { to := none, kind := 'S', j := 0, ridOK := true, content := none, sig := none, typ := none } ::
+        (List.range n).map (fun j => { to := none, kind := 'h', j := j, ridOK := true, content := some 0, sig := none, typ := none })
+      match submitterIdx req.last n with
+      | none => "panic submitter"
+      | some subI =>
+        if member then
+          runCase padSize addrLen req.kind n ids [] req.last req.rid req.seed req.parsed []
+            (sched.filter (fun it => it.kind = 'S' ∨ it.j ≠ subI))
+        else
+          "sub=" ++ toString subI ++ " " ++ String.intercalate " " ((List.range n).map (fun i => s!"{i}=-"))
+    | _, _, _, _, _, _, _, _ => "bad-op"
+  | _ => "bad-op"
+
 def stepLine (padSize addrLen : Nat) (line : String) : String :=
   match words line with
+  | "ev" :: rest => evLine padSize addrLen rest
   | ["q", kind, n, _seed, ids, byz, last, rid, useed, _doc, _sel, parsed, alts, sched] =>
     match parseKind kind, n.toNat?, hexList ids, csvNat byz, last.toNat?, rid.toNat?, useed.toNat?, hexList alts with
     | some kind, some n, some ids, some byz, some last, some rid, some useed, some alts =>
